@@ -292,6 +292,26 @@ example : ∃ st' out, runPre NumberedLines.St.init [['d', 'e', 'f', ' ', 'a'], 
   decide
 
 open NemoVerif.NumberedLines in
+/-- Positive specification of what the comment above a statement means: a `# c` line, then any number of blank lines (any `str.isspace`
+    characters), then an ordinary statement - the statement's record carries the comment `c` (stripped), and the comment is used up.
+    (`$v = ...` below a comment gets the comment as `instructions`; a bot step gets it as generation instructions.) -/
+theorem numbered_lines_comment_attaches (pre post blanks : List Str) (cl c stmt : Str)
+    (st' : NumberedLines.St) (out : List Rec) (hpre : runPre NumberedLines.St.init pre = .ok (st', out))
+    (hB : st'.atBoundary = true) (hml : st'.mlComment = false) (hc0 : st'.comment = none)
+    (hcl : strip cl = '#' :: c) (hb : ∀ b ∈ blanks, strip b = []) (hs : plainStmt (strip stmt) = true) :
+    numbered (pre ++ cl :: (blanks ++ stmt :: post)) =
+      (run { st' with comment := none, pending := none } post).map fun rest =>
+        out ++ { text := firstPart (strip stmt), indentation := lead stmt, comment := some (strip c) } :: rest :=
+  numbered_comment_attaches pre post blanks cl c stmt st' out hpre hB hml hc0 hcl hb hs
+
+open NemoVerif.NumberedLines in
+/-- non-vacuity: `define flow a` / `  # say hi` / `` / `  bot x` -/
+example : ∃ st' out, runPre NumberedLines.St.init ["define flow a".toList] = .ok (st', out) ∧ st'.atBoundary = true ∧ st'.mlComment = false ∧ st'.comment = none ∧
+    strip "  # say hi".toList = '#' :: " say hi".toList ∧ plainStmt (strip "  bot x".toList) = true := by
+  refine ⟨_, _, rfl, ?_, ?_, ?_, ?_, ?_⟩ <;> decide
+
+
+open NemoVerif.NumberedLines in
 /-- kernel-checked witnesses (finite facts) that the hypothesis `atBoundary` of `numbered_lines_blank` is needed: a blank line between a line
     ending in ` or` and its continuation, or inside a multi-line string, changes the records. -/
 theorem numbered_lines_blank_boundary_witness :
